@@ -743,6 +743,9 @@ func (engine *Engine) recv(ctx *app.RequestContext) {
 func (engine *Engine) ServeHTTP(c context.Context, ctx *app.RequestContext) {
 	ctx.SetBinder(engine.binder)
 	ctx.SetValidator(engine.validator)
+	// a pooled context may carry what a handler of an earlier request installed
+	ctx.SetClientIPFunc(engine.clientIPFunc)
+	ctx.SetFormValueFunc(engine.formValueFunc)
 	if engine.PanicHandler != nil {
 		defer engine.recv(ctx)
 	}
